@@ -394,3 +394,53 @@ add("E-window-01-lt-for-le", ["C12"], "hyperloglog",
     "    if key_len <= ngram:\n        _add(registers, seed, p, m, key)", "    if key_len < ngram:\n        _add(registers, seed, p, m, key)", kind="E")
 add("E-window-02-loop-bound-rearranged", ["C12"], "heavyhitters",
     "        for i in range(key_len - (ngram - uint64(1))):", "        for i in range(key_len - ngram + uint64(1)):", kind="E")
+
+# ---------------------------------------------------------------------------
+# HyperLogLog state (C02) and estimator (C17)
+# ---------------------------------------------------------------------------
+add("join-01-merge-min", ["C02"], "hyperloglog", "        registers[i] = max(registers[i], other_registers[i])", "        registers[i] = min(registers[i], other_registers[i])", rules=["join"])
+add("join-02-merge-overwrite", ["C02"], "hyperloglog", "        registers[i] = max(registers[i], other_registers[i])", "        registers[i] = other_registers[i]", rules=["join"])
+add("join-03-add-overwrite", ["C02"], "hyperloglog", "    registers[reg_idx] = max(registers[reg_idx], rank)", "    registers[reg_idx] = rank", rules=["join"])
+add("join-04-merge-neighbour", ["C02"], "hyperloglog", "        registers[i] = max(registers[i], other_registers[i])", "        registers[i] = max(registers[i], other_registers[m - 1 - i])", rules=["join"])
+add("join-05-merge-skips-last", ["C02"], "hyperloglog", "    for i in range(m):\n        registers[i] = max(", "    for i in range(m - 1):\n        registers[i] = max(", rules=["cover"])
+add("join-06-merge-writes-other", ["C02", "C09"], "hyperloglog", "        registers[i] = max(registers[i], other_registers[i])", "        registers[i] = max(registers[i], other_registers[i])\n        other_registers[i] = registers[i]", rules=["other-ro"])
+add("indep-01-rank-depends-on-state", ["C02"], "hyperloglog", "    rank = _n_leading_zeros64(bits) - p + 1\n", "    rank = _n_leading_zeros64(bits) - p + 1 + (registers[0] & 1)\n", rules=["indep", "bits"])
+add("bits-01-rank-plus-two", ["C02"], "hyperloglog", "    rank = _n_leading_zeros64(bits) - p + 1\n", "    rank = _n_leading_zeros64(bits) - p + 2\n", rules=["bits"])
+add("bits-02-shift-p-minus-one", ["C02"], "hyperloglog", "    bits = hash_val >> p\n", "    bits = hash_val >> (p - 1)\n", rules=["bits", "hll-range"])
+add("bits-03-index-mask-m", ["C02"], "hyperloglog", "    reg_idx = hash_val & uint64(m - 1)\n", "    reg_idx = hash_val & uint64(m)\n", rules=["bits"])
+add("bits-04-hash-ignores-seed", ["C02"], "hyperloglog", "    hash_val = fasthash64(key, seed)\n", "    hash_val = fasthash64(key, 0)\n", rules=["bits"])
+add("bits-05-m-two-p-plus-one", ["C02"], "hyperloglog", "        self.m = np.uint64(1) << self.p", "        self.m = np.uint64(2) << self.p", rules=["bits"])
+add("bits-06-p-range-widened", ["C02", "C17"], "hyperloglog", "        if self.p > np.uint64(16) or self.p < np.uint64(7):", "        if self.p > np.uint64(18) or self.p < np.uint64(7):", rules=["ctor-range"])
+NLZ = ["    y = x >> uint64(32)\n    if y != zero:\n        n = n - uint8(32)", "    y = x >> uint64(16)\n    if y != zero:\n        n = n - uint8(16)",
+       "    y = x >> uint64(8)\n    if y != zero:\n        n = n - uint8(8)", "    y = x >> uint64(4)\n    if y != zero:\n        n = n - uint8(4)",
+       "    y = x >> uint64(2)\n    if y != zero:\n        n = n - uint8(2)"]
+for i, (blk, c) in enumerate(zip(NLZ, (32, 16, 8, 4, 2))):
+    add("nlz-%02d-subtract-%d-off" % (i + 1, c), ["C02"], "hyperloglog", blk, blk.replace("n - uint8(%d)" % c, "n - uint8(%d)" % (c - 1)), rules=["nlz"])
+add("nlz-06-shift-15", ["C02"], "hyperloglog", "    y = x >> uint64(16)", "    y = x >> uint64(15)", rules=["nlz"])
+add("nlz-07-last-return", ["C02"], "hyperloglog", "    if y != zero:\n        return n - uint8(2)", "    if y != zero:\n        return n - uint8(1)", rules=["nlz"])
+add("nlz-08-final-no-x", ["C02"], "hyperloglog", "    return n - uint8(x)", "    return n - uint8(1)", rules=["nlz"])
+add("hll-mult-01-value-times", ["C02", "C12"], "hyperloglog", "        _add(self.registers, self.seed, self.p, self.m, key)\n\n    def update(", "        _add(self.registers, self.seed, self.p, self.m, key * value)\n\n    def update(", rules=["ignore-mult", "value-fwd"])
+add("E-bits-01-mod-for-mask", ["C02"], "hyperloglog", "    reg_idx = hash_val & uint64(m - 1)\n", "    reg_idx = hash_val % m\n", kind="E")
+add("E-join-01-guarded-form", ["C02"], "hyperloglog", "        registers[i] = max(registers[i], other_registers[i])", "        if other_registers[i] > registers[i]:\n            registers[i] = other_registers[i]", kind="E")
+add("E-join-02-max-flipped", ["C02"], "hyperloglog", "    registers[reg_idx] = max(registers[reg_idx], rank)", "    registers[reg_idx] = max(rank, registers[reg_idx])", kind="E")
+
+add("qtree-01-4m", ["C17"], "hyperloglog", "        if cardinality <= float64(5 * m):", "        if cardinality <= float64(4 * m):", rules=["qtree"])
+add("qtree-02-threshold-ge", ["C17"], "hyperloglog", "        if cardinality > threshold:", "        if cardinality >= threshold:", rules=["qtree"])
+add("qtree-03-5m-strict", ["C17"], "hyperloglog", "        if cardinality <= float64(5 * m):", "        if cardinality < float64(5 * m):", rules=["qtree"])
+add("qtree-04-interp-args-swapped", ["C17"], "hyperloglog", "            bias = np.interp(est, raw_estimate, bias_data)", "            bias = np.interp(est, bias_data, raw_estimate)", rules=["qtree"])
+add("qtree-05-bias-added", ["C17"], "hyperloglog", "            cardinality = est - bias", "            cardinality = est + bias", rules=["qtree"])
+add("qtree-06-no-correction-when-no-zero", ["C17"], "hyperloglog", "            bias = np.interp(cardinality, raw_estimate, bias_data)\n            cardinality = cardinality - bias", "            pass", rules=["qtree"])
+add("qtree-07-nzero-from-count", ["C17"], "hyperloglog", "    n_zero = m - uint64(np.count_nonzero(registers))", "    n_zero = uint64(np.count_nonzero(registers))", rules=["qtree", "forms"])
+add("forms-01-lc-log-inverted", ["C17"], "hyperloglog", "    return float64(m) * np.log(float64(m) / float64(n_zero))", "    return float64(m) * np.log(float64(n_zero) / float64(m))", rules=["forms"])
+add("forms-02-est-m-not-squared", ["C17"], "hyperloglog", "    return alpha * float64(m**2) / total", "    return alpha * float64(m) / total", rules=["forms"])
+add("forms-03-est-positive-exponent", ["C17"], "hyperloglog", "        total += 2.0 ** (-float64(r))", "        total += 2.0 ** (float64(r))", rules=["forms"])
+add("alpha-01-constant", ["C17"], "hyperloglog", "0.7213 / (1.0 + 1.079 / self.m)", "0.7123 / (1.0 + 1.079 / self.m)", rules=["alpha"])
+add("alpha-02-constant2", ["C17"], "hyperloglog", "0.7213 / (1.0 + 1.079 / self.m)", "0.7213 / (1.0 + 1.097 / self.m)", rules=["alpha"])
+add("tabidx-01-bias-row-p-6", ["C17"], "hyperloglog", "        self.bias_data = bias_data[int(self.p) - 7, :]", "        self.bias_data = bias_data[int(self.p) - 6, :]", rules=["tabidx"])
+add("tabidx-02-raw-from-bias-table", ["C17"], "hyperloglog", "        self.raw_estimate = raw_estimate[int(self.p) - 7, :]", "        self.raw_estimate = bias_data[int(self.p) - 7, :]", rules=["tabidx"])
+add("tabidx-03-threshold-fixed-row", ["C17"], "hyperloglog", "        self.threshold = sub_algorithm_threshold[int(self.p) - 7]", "        self.threshold = sub_algorithm_threshold[3]", rules=["tabidx"])
+add("tabidx-04-query-args-swapped", ["C17"], "hyperloglog", "            self.raw_estimate,\n            self.bias_data,\n        )", "            self.bias_data,\n            self.raw_estimate,\n        )", rules=["bind"])
+add("E-qtree-01-m-times-5", ["C17"], "hyperloglog", "        if cardinality <= float64(5 * m):", "        if cardinality <= float64(m * 5):", kind="E")
+add("E-qtree-02-nzero-ne-0", ["C17"], "hyperloglog", "    if n_zero > 0:", "    if n_zero != 0:", kind="E")
+add("E-qtree-03-flipped-threshold-test", ["C17"], "hyperloglog", "        if cardinality > threshold:", "        if threshold < cardinality:", kind="E")
+add("E-forms-01-m-times-m", ["C17"], "hyperloglog", "    return alpha * float64(m**2) / total", "    return alpha * float64(m * m) / total", kind="E")
